@@ -714,7 +714,7 @@ func replaySched(line string) (string, error) {
 			}
 			res, e, _ := sc.execute(strings.Fields(f[5]), schedWatchdog(), false)
 			for _, v := range e.bad {
-				res += "\n  oracle: " + v.Sig + ": " + v.What
+				fmt.Printf("PROPERTY VIOLATED on the implementation: %s: %s\n", v.Sig, v.What)
 			}
 			return res, nil
 		}
